@@ -1,0 +1,15 @@
+//go:build verif
+
+package syscall
+
+// Contracts for the symlinkat/readlinkat entry points (property C17).
+// Comment-only file: compiled only under the "verif" build tag, contains no
+// code. The "//@" lines are read by govc. On Linux these functions are plain
+// forwards to golang.org/x/sys/unix; the arguments arrive unchanged.
+
+//@ func Symlinkat
+//@   at call unix.Symlinkat assert[same] arg0 == target && arg1 == directory && arg2 == path
+//@ func Readlinkat
+//@   modifies buffer[0:len(buffer)]
+//@   at call unix.Readlinkat assert[same] arg0 == directory && arg1 == path && base(arg2) == base(buffer) && off(arg2) == off(buffer) && len(arg2) == len(buffer)
+//@   ensures result0 <= len(buffer)
